@@ -224,7 +224,7 @@ def make_case(index, rng, tier):
     return {"msgs": [b2j(m) for m in msgs], "family": family, "keepalive": rng.choice([0, 2, 2]),
             "prog": rng.randrange(len(PROG)), "seg": rng.choice(["max", "k", "small"]), "truncs": truncs,
             "cfg": rng.choice([{}, {}, {"limit_request_line": 64}, {"limit_request_fields": 3}]),
-            "unix": rng.randrange(4) == 0,
+            "unix": rng.randrange(4) == 0, "unix_peer": rng.choice(["", "", "c", "/tmp/client.sock", "ab"]),
             # the peer does not disconnect at once when its (possibly truncated) bytes are used up: it stays silent for a while first
             "silence": rng.choice([None, None, 0.5, 3.0, 10.0])}
 
@@ -251,8 +251,9 @@ def one_run(res, log, case, data, cuts, fault_at, fault_kind, yielded, label):
     state = conn.AppState()
     worker = conn.make_worker(case["family"], cfg, conn.make_app([PROG[case["prog"]]], state))
     unix = case.get("unix")
+    # (a unix-socket client is usually unbound - peer address '' - but may have bound its own end to a path, even a one-character one)
     sock = conn.SimSock(data, cuts, fault_at=fault_at, fault_kind=fault_kind, silence=case.get("silence"),
-                        **({"peer": "", "name": "/run/g.sock"} if unix else {}))
+                        **({"peer": case.get("unix_peer", ""), "name": "/run/g.sock"} if unix else {}))
     esc = conn.serve(worker, case["family"], sock)
     fam = case["family"]
     ctx = lambda: "%s family=%s keepalive=%s cfg=%r stream=%s wire=%s" % (
